@@ -9,14 +9,16 @@ pub mod c13;
 pub mod c14;
 pub mod c15;
 pub mod c16;
+pub mod c17;
 pub mod c19;
+pub mod c20;
 pub mod ros_safety;
 pub mod safety;
 
 use crate::engine::PropertyDef;
 
 pub fn all_ids() -> Vec<&'static str> {
-    vec!["C01", "C02", "C03", "C04", "C05", "C06", "C07", "C08", "C09", "C10", "C11", "C12", "C13", "C14", "C15", "C16", "C18", "C19"]
+    vec!["C01", "C02", "C03", "C04", "C05", "C06", "C07", "C08", "C09", "C10", "C11", "C12", "C13", "C14", "C15", "C16", "C17", "C18", "C19", "C20"]
 }
 
 pub fn property(id: &str) -> Option<PropertyDef> {
@@ -37,8 +39,10 @@ pub fn property(id: &str) -> Option<PropertyDef> {
         "C14" => Some(c14::def()),
         "C15" => Some(c15::def()),
         "C16" => Some(c16::def()),
+        "C17" => Some(c17::def()),
         "C18" => Some(safety::def_c18()),
         "C19" => Some(c19::def()),
+        "C20" => Some(c20::def()),
         _ => None,
     }
 }
